@@ -298,9 +298,9 @@ func genConforming(t *rapid.T) Case {
 			total += len(f.Data)
 			rd.In = append(rd.In, f)
 		}
-		if nOwn > 0 && rapid.IntRange(0, 3).Draw(t, lbl+"_trail") == 0 {
-			rd.In = append(rd.In, genForeign(t, lbl+"_tf", &c, other))
-		}
+		// A round always ends with a frame of the connection under test: when the reader has consumed it,
+		// every earlier frame has left the library's (lossy, see knownDropSig) frame pipeline, so the Y
+		// replies of the following writes/flush travel alone.
 		if nOwn > 0 && rapid.IntRange(0, 7).Draw(t, lbl+"_knock") == 0 {
 			k := TFrame{Why: "knock", Port: c.Port, Kind: "C", From: other, To: c.MyCall, Data: []byte("*** CONNECTED To Station " + other + "\r")}
 			k.Seg = genSeg(t, lbl+"_knockseg", len(k.Data), 1)
